@@ -1111,7 +1111,7 @@ def gen_cases(rng, tier, names):
     # -- object level
     dims = [None, N('UNITLESS'), N('KM'), N('M'), N('SEC'), N('DEG'), N('RAD'), N('STER'),
             ['div', N('KM'), N('S')], ['pow', N('M'), 2], ['mul', N('DEG'), N('RAD')],
-            ['div', N('CM'), ['pow', N('MIN'), 2]], ['pow', N('MSEC'), -1]]
+            ['div', N('CM'), ['pow', N('MIN'), 2]], ['pow', N('MSEC'), -1], ['div', N('M'), N('KM')]]
     allcls = ['Scalar', 'Vector', 'Vector3', 'Pair', 'Matrix']
 
     def pick_units():
@@ -1228,6 +1228,7 @@ def signature(c, res):
         sig['a_dimensionless'] = ra is None or ra.e == (0, 0, 0)
         sig['a_pure_scaled'] = ra is not None and ra.e == (0, 0, 0) and ra.f != 1.0
         sig['shaped'] = bool(c.get('shape'))
+        sig['array_path'] = bool(c.get('shape')) or c.get('how') == 'array_exponent'
     return sig
 
 
@@ -1293,7 +1294,7 @@ def run(ctx):
     ctx.rule = ('named table (every Units.* constant) + all pairs (thorough: all names; quick: half of the pairs of 19 '
                 'distinct values) and triples (thorough: all 6859 of the distinct values; quick: 400) + seeded random '
                 'products/quotients/powers with every exponent in -3..3, for mul div cancel assoc pow pow_add sqrt '
-                'sqrt_sq convert match static-helpers scale init copy; object level: 13 unit dimensions (incl. None) '
+                'sqrt_sq convert match static-helpers scale init copy; object level: 14 unit dimensions (incl. None) '
                 'squared x {Scalar,Vector,Vector3,Pair,Matrix,Boolean} x every unit-aware operation; '
                 'non-trivial = at least one operand carries units')
     ctx.assumptions = ['unit records are exact (integer numerator/denominator); float-fallback units are compared on '
@@ -1362,6 +1363,12 @@ def run(ctx):
             ctx.cov['correspondence_mismatches'] = 0 if mism is not None else None
     ctx.exhaustive = ctx.tier == 'thorough'
     lock.close()
+    if ctx.violations:
+        # concrete failing inputs were found: a proof / correspondence that broke in the same run
+        # is reported through them, not as `no-failing-input-found`
+        for kind, name, detail in ctx.broken:
+            if kind in ('proof', 'correspondence'):
+                ctx.concrete_found.add(name)
     return ctx.finish()
 
 
